@@ -363,6 +363,27 @@ impl RawProofStore {
     }
 }
 
+#[cfg(egglog_verif)]
+impl ProofStore {
+    /// Verification hook (compiled only with `--cfg egglog_verif`): a copy of this store in which
+    /// the proof `target` carries another justification and proposition, so that the checker can
+    /// be shown single-point alterations of a proof object.
+    pub fn verif_with_replaced(
+        &self,
+        target: ProofId,
+        justification: Justification,
+        lhs: TermId,
+        rhs: TermId,
+    ) -> ProofStore {
+        let mut altered = self.clone();
+        altered.id_to_proof[target] = Proof {
+            proposition: Proposition::new(lhs, rhs),
+            justification,
+        };
+        altered
+    }
+}
+
 impl ProofStore {
     /// Get the term DAG used by this proof store.
     pub fn term_dag(&self) -> &TermDag {
